@@ -270,8 +270,12 @@ func c16eval(c *vt.Ctx, s *c16sig, optName string, h jrpc2.Handler, params strin
 			ok = false
 		}
 	}()
-	res, err := h(c15ctx, req)
+	ctx := c15pickCtx(k, params)
+	res, err := h(ctx, req)
 	c.Eval(1)
+	if ctx.Err() != nil {
+		c.Count("invocations_with_ended_context", 1)
+	}
 	rec := s.rec
 	if rec.calls > 1 {
 		c.Failf("%s: function called %d times", where(), rec.calls)
